@@ -239,28 +239,41 @@ def runO (cfg : Cfg) (o : OrdCfg) (s : St) (ops : List OpO) : St := ops.foldl (f
 /-! ## decisions of the ordering models -/
 
 /-- the models the ordered reload is stated for: RBAC with an explicit priority column
-    (`p = priority, sub, obj, act, eft`, `e = priority(p.eft) || deny`) and RBAC with subject priority
-    (`p = sub, obj, act, eft`, `e = subjectPriority(p.eft) || deny`); matcher
-    `g(r.sub, p.sub) && r.obj == p.obj && r.act == p.act` -/
-inductive OShape | prio | subj
+    (`p = priority, sub, obj, act, eft`, `e = priority(p.eft) || deny`), RBAC with subject priority
+    (`p = sub, obj, act, eft`, `e = subjectPriority(p.eft) || deny`), both with the matcher
+    `g(r.sub, p.sub) && r.obj == p.obj && r.act == p.act`; and subject priority with domains
+    (`examples/subject_priority_model_with_domain.conf`: `r = sub, obj, dom, act`, `p = sub, obj, dom, act, eft`,
+    `g = _, _, _`, matcher `g(r.sub, p.sub, r.dom) && r.dom == p.dom && r.obj == p.obj && r.act == p.act`) -/
+inductive OShape | prio | subj | subjDom
   deriving DecidableEq, Repr, Inhabited
 
 /-- number of fields before `sub` -/
-def OShape.off : OShape → Nat | .prio => 1 | .subj => 0
-def OShape.pArity : OShape → Nat | .prio => 5 | .subj => 4
+def OShape.off : OShape → Nat | .prio => 1 | _ => 0
+def OShape.pArity : OShape → Nat | .prio => 5 | .subj => 4 | .subjDom => 5
+def OShape.rArity : OShape → Nat | .subjDom => 4 | _ => 3
+/-- number of `_` of the role definition -/
+def OShape.gCount : OShape → Nat | .subjDom => 3 | _ => 2
 def OShape.ordCfg : OShape → OrdCfg
   | .prio => { prioIdx := some 0 }
   | .subj => { subjPrio := true }
+  | .subjDom => { subjPrio := true, domIdx := some 2 }
 
 def matcherO (sh : OShape) (links : Pol) (req pv : List String) : MVal :=
-  match req, pv.drop sh.off with
-  | [rs, ro, ra], ps :: po :: pa :: _ => .bool (hasLinkQ links.g rs ps none && ro == po && ra == pa)
-  | _, _ => .other false
+  match sh with
+  | .subjDom =>
+    match req, pv with
+    | [rs, ro, rd, ra], ps :: po :: pd :: pa :: _ =>
+        .bool (hasLinkQ links.g rs ps (some rd) && rd == pd && ro == po && ra == pa)
+    | _, _ => .other false
+  | sh =>
+    match req, pv.drop sh.off with
+    | [rs, ro, ra], ps :: po :: pa :: _ => .bool (hasLinkQ links.g rs ps none && ro == po && ra == pa)
+    | _, _ => .other false
 
 /-- `enforce(*req)` under the priority effect: the first rule that matches and names an effect decides (C01) - the
     ORDER of the rules is observable through every decision -/
 def enforceQO (sh : OShape) (s : St) (req : List String) : Except Err Bool :=
-  enforce { kind := .priority, rArity := 3, pArity := sh.pArity, eftCol := some (sh.pArity - 1) }
+  enforce { kind := .priority, rArity := sh.rArity, pArity := sh.pArity, eftCol := some (sh.pArity - 1) }
     (matcherO sh s.links) s.pol.p req
 
 end Casbin.Enf
